@@ -19,9 +19,11 @@ C19 = "c19_interceptor"
 JH = os.path.join(VERIF, "harness", "java", "x04")
 PROXY = "lunar-proxy.test:8000"
 
+TH = os.path.join(VERIF, "harness", "ts", "x04")
 DEV_LEG = "exception-in-gateway-leg-counts-as-gateway-failure"
-JAVA_FS_DEVS = [DEV_LEG]
-JAVA_FILTER_DEVS = ["ipv6-internal-destination-routed", "list-items-compared-as-typed", "unsupported-allow-item-raises"]
+DEV_TWICE = "gateway-error-response-counts-twice"
+PINNED = {"java": [DEV_LEG, "ipv6-internal-destination-routed", "list-items-compared-as-typed", "unsupported-allow-item-raises"],
+          "ts": [DEV_LEG, DEV_TWICE, "names-never-resolved", "ipv6-literal-cut-at-colon", "list-items-compared-as-typed"]}
 
 
 # ----------------------------------------------------------------------------------------------- plumbing
@@ -101,6 +103,45 @@ def hosts_file(ctx, hosts, name="hosts"):
     return p
 
 
+def find_node():
+    """a node that runs TypeScript sources directly (type stripping + enum transform: >= 22.7); None when there is none (no typescript
+    compiler is installed in this sandbox and none can be fetched)"""
+    import glob
+    cands = [os.environ.get("X04_NODE")] + sorted(glob.glob("/root/.nvm/versions/node/v2[2-9]*/bin/node"), reverse=True) + [shutil.which("node")]
+    for c in cands:
+        if not c or not os.path.exists(c):
+            continue
+        try:
+            v = subprocess.run([c, "--version"], stdout=subprocess.PIPE, text=True, timeout=20).stdout.strip().lstrip("v").split(".")
+            if (int(v[0]), int(v[1])) >= (22, 7):
+                return c
+        except Exception:
+            continue
+    return None
+
+
+def run_ts(ctx, node, args, timeout=900):
+    cmd = [node, "--no-warnings", "--experimental-transform-types", "--import", os.path.join(TH, "register.mjs"), os.path.join(TH, "exec.mjs")] + list(args)
+    env = {k: v for k, v in os.environ.items() if not k.startswith("LUNAR_")}
+    env["VERIF_REPO"] = REPO
+    try:
+        p = subprocess.run(cmd, cwd=ctx.sub("tcwd"), env=env, stdout=subprocess.PIPE, stderr=subprocess.PIPE, text=True, timeout=timeout)
+    except subprocess.TimeoutExpired:
+        raise Broken("node executor timed out: %s" % " ".join(args))
+    if p.returncode != 0:
+        raise Broken("node executor failed rc=%d: %s\n%s" % (p.returncode, " ".join(args), (p.stderr or p.stdout)[-3000:]))
+    try:
+        return json.loads(p.stdout.strip().splitlines()[-1])
+    except Exception:
+        raise Broken("node executor printed no summary: %s" % p.stdout[-500:])
+
+
+def texec(node):
+    def f(ctx, args, **kw):
+        return run_ts(ctx, node, args)
+    return f
+
+
 # ----------------------------------------------------------------------------------------------- fail-safe: alphabets
 def alphabet(adv, gw_read, gw_noread=None, ok_kind="", app="error", extra=()):
     a = [{"ev": "ask"}] + [{"ev": "adv", "d": d} for d in adv] + [
@@ -125,6 +166,18 @@ FRAC = alphabet([7, 1], "proxy/x-Lunar-Error/2")[:-1]
 # the family that exhibits the pinned deviation: exceptions of the application inside the gateway leg
 DEVF = alphabet([1], "conn", app="runtime", extra=[{"ev": "call", "read": True, "out": "appexc", "kind": "io+"},
                                                     {"ev": "call", "read": False, "out": "appexc", "kind": "runtime+"}])
+# TypeScript (fetch hook): every rejection of the gateway leg is caught (no conforming application exception); an error RESPONSE counts twice
+T_CORE = [{"ev": "ask"}, {"ev": "adv", "d": 1}, {"ev": "call", "read": True, "out": "ok", "kind": ""},
+          {"ev": "call", "read": True, "out": "gwerr", "kind": "conn"}, {"ev": "call", "read": True, "out": "skip", "kind": ""}]
+T_CORE7 = [{"ev": "ask"}, {"ev": "adv", "d": 8}, {"ev": "call", "read": True, "out": "ok", "kind": "seq"},
+           {"ev": "call", "read": True, "out": "gwerr", "kind": "timeout"}, {"ev": "call", "read": False, "out": "gwerr", "kind": "unknownhost"},
+           {"ev": "call", "read": False, "out": "ok", "kind": ""}]
+T_FRAC = [{"ev": "ask"}, {"ev": "adv", "d": 7}, {"ev": "adv", "d": 1}, {"ev": "call", "read": True, "out": "ok", "kind": ""},
+          {"ev": "call", "read": True, "out": "gwerr", "kind": "conn"}]
+T_DEVF = [{"ev": "ask"}, {"ev": "adv", "d": 1}, {"ev": "call", "read": True, "out": "ok", "kind": ""},
+          {"ev": "call", "read": True, "out": "gwerr", "kind": "proxy/x-lunar-error/2"}, {"ev": "call", "read": True, "out": "gwerr", "kind": "conn"},
+          {"ev": "call", "read": True, "out": "appexc", "kind": "runtime"}, {"ev": "call", "read": True, "out": "appexc", "kind": "io+"},
+          {"ev": "call", "read": False, "out": "gwerr", "kind": "proxy/X-Lunar-Error/4"}]
 CONFIGS = [{"N": n, "C": c} for n in (1, 2, 3) for c in (1, 2, 3)]
 GW_KINDS = ["conn", "timeout", "unknownhost", "proxy/x-lunar-error/2", "proxy/X-Lunar-Error/4", "proxy/X-LUNAR-ERROR/1", "proxy/x-Lunar-error/77"]
 OK_KINDS = ["", "seq", "retry0"]
@@ -247,9 +300,15 @@ def witness_failsafe(path, impl="java"):
 
 def obs_class(path):
     """bookkeeping: which pinned deviation an observation belongs to (the strict judgement rejected the last event of path)"""
-    app = [e for e in path if e["ev"] == "call" and e["out"] == "appexc" and e.get("kind") in APP_DEV and (e["ans"] or not e["read"])]
+    ran = [e for e in path if e["ev"] == "call" and (e["ans"] or not e["read"])]
+    app = [e for e in ran if e["out"] == "appexc" and e.get("kind") in APP_DEV]
+    twice = [e for e in ran if e["out"] == "gwerr" and e.get("kind", "").startswith("proxy/")] if path[0].get("impl") == "ts" else []
+    if app and twice:
+        return "several-deviations-at-once"
     if app:
         return DEV_LEG
+    if twice:
+        return DEV_TWICE
     return "unattributed"
 
 
@@ -288,7 +347,7 @@ def judge_tree(ctx, impl, execf, trace_path, tag, workers=4, heap=None, max_repo
 
 
 # ----------------------------------------------------------------------------------------------- parts: model
-def part_model(ctx):
+def part_model(ctx, with_ts):
     T = ctx.thorough
     fs_ok = [("MC_X04FS", "MC_X04FS_java.cfg" if not T else "MC_X04FS_java_large.cfg", "java fail-safe: I=>P (subset construction) under the pinned deviation"),
              ("MC_X04FS", "MC_X04FS_java_benign.cfg", "java fail-safe: benign variant (counter cleared on recovery) must refine P")]
@@ -310,12 +369,33 @@ def part_model(ctx):
              ("MC_X04Filter", "MC_X04Filter_java_blockinv.cfg", "non-vacuity: inverted block-list test"),
              ("MC_X04Filter", "MC_X04Filter_java_no172.cfg", "non-vacuity: 172.16/12 missing from the private ranges"),
              ("MC_X04Filter", "MC_X04Filter_java_allowthrough.cfg", "non-vacuity: destination outside the allow list judged by the external test")]
+    if with_ts:
+        fs_ok += [("MC_X04FSTs", "MC_X04FSTs_ts.cfg" if not T else "MC_X04FSTs_ts_large.cfg", "ts fail-safe: I=>P (subset construction) under the pinned deviations")]
+        fs_bad += [("MC_X04FSTs", "MC_X04FSTs_ts_strict.cfg", "the pinned deviations are real: I is refuted by the statement alone"),
+                   ("MC_X04FSTs", "MC_X04FSTs_ts_notwicedev.cfg", "deviation gateway-error-response-counts-twice is needed"),
+                   ("MC_X04FSTs", "MC_X04FSTs_ts_nolegdev.cfg", "deviation exception-in-gateway-leg-counts-as-gateway-failure is needed"),
+                   ("MC_X04FSTs", "MC_X04FSTs_ts_strictcool.cfg", "non-vacuity: strict cool-down test"),
+                   ("MC_X04FSTs", "MC_X04FSTs_ts_noreset.cfg", "non-vacuity: success not clearing the counter"),
+                   ("MC_X04FSTs", "MC_X04FSTs_ts_nofallback.cfg", "non-vacuity: gateway failure reaching the caller"),
+                   ("MC_X04FSTs", "MC_X04FSTs_ts_ignore.cfg", "non-vacuity: breaker not consulted")]
+        if T:
+            fs_ok += [("MC_X04FSTs", "MC_X04FSTs_ts_benign.cfg", "ts fail-safe: benign variant (counter cleared on recovery) must refine P"),
+                      ("MC_X04FSTs", "MC_X04FSTs_ts_countonce.cfg", "ts fail-safe: an error response counted once refines P without that deviation")]
+            fs_bad += [("MC_X04FSTs", "MC_X04FSTs_ts_%s.cfg" % w, "witness %s" % w) for w in ("W_NeverOpen", "W_NeverEarlyTrip")]
+        f_ok += [("MC_X04Filter", "MC_X04Filter_ts.cfg" if not T else "MC_X04Filter_ts_thorough.cfg",
+                  "ts filter: the result of the transcription permitted under the pinned deviations")]
+        f_bad += [("MC_X04Filter", "MC_X04Filter_ts_strict.cfg", "the pinned deviations are real: refuted by the statement alone"),
+                  ("MC_X04Filter", "MC_X04Filter_ts_nonamesdev.cfg", "deviation names-never-resolved is needed"),
+                  ("MC_X04Filter", "MC_X04Filter_ts_nocutdev.cfg", "deviation ipv6-literal-cut-at-colon is needed"),
+                  ("MC_X04Filter", "MC_X04Filter_ts_nocasedev.cfg", "deviation list-items-compared-as-typed is needed"),
+                  ("MC_X04Filter", "MC_X04Filter_ts_blockinv.cfg", "non-vacuity: inverted block-list test"),
+                  ("MC_X04Filter", "MC_X04Filter_ts_no172.cfg", "non-vacuity: 172.16/12 missing from the private ranges")]
     jobs = [(m, c, l, True) for m, c, l in fs_ok + f_ok] + [(m, c, l, False) for m, c, l in fs_bad + f_bad]
 
     def mc(job):
         module, cfg, label, ok = job
         d = workdir(ctx, "mc-" + cfg.replace(".cfg", ""))
-        return ctx.tlc(d, module, cfg, workers=(6 if not T else 10) if ok and module == "MC_X04FS" else 1, timeout=1500, label=label,
+        return ctx.tlc(d, module, cfg, workers=(6 if not T else 10) if ok and module != "MC_X04Filter" else 1, timeout=1500, label=label,
                        count=False, heap="4g" if ok else "2g")
     res = parallel(mc, jobs, n=6)
     space = None
@@ -325,7 +405,7 @@ def part_model(ctx):
         if ok:
             if not r.ok:
                 raise Broken("TLC %s/%s: %r\n%s" % (module, cfg, r, r.out[-3000:]))
-            if module == "MC_X04FS":
+            if module != "MC_X04Filter":
                 ctx.cov["states"] += r.distinct
                 ctx.cov["transitions"] += r.generated
                 ctx.log("TLC %s %s: %d generated / %d distinct, %.1fs" % (module, cfg, r.generated, r.distinct, r.wall))
@@ -333,7 +413,7 @@ def part_model(ctx):
                 m = re.search(r'<<"FILTER-CASES", (\d+), (\d+), (\d+)>>', r.out)
                 if not m:
                     raise Broken("no FILTER-CASES line: %s" % r.out[-1500:])
-                ctx.cov["filter_space_cases"] = int(m.group(1))
+                ctx.cov["filter_space_cases"] = ctx.cov.get("filter_space_cases", 0) + int(m.group(1))
                 ctx.cov["filter_space_must_not_route"] = int(m.group(2))
                 ctx.cov["filter_space_must_route"] = int(m.group(3))
                 ctx.log("TLC %s %s: %s cases (%s with a routing prohibition, %s with a routing obligation), %.1fs" % (
@@ -352,11 +432,10 @@ def jexec(hosts):
     return f
 
 
-def part_trees(ctx, execf, impl="java"):
-    T = ctx.thorough
+def tree_jobs(impl, T):
     small = [c for c in CONFIGS if c["N"] <= 2 and c["C"] <= 2]
     jobs = []
-    if not T:
+    if impl == "java" and not T:
         jobs.append(("core5", {"configs": CONFIGS, "depth": 5, "alphabet": CORE}))
         jobs.append(("core6", {"configs": [{"N": 2, "C": 2}], "depth": 6, "alphabet": CORE}))
         jobs.append(("noread5", {"configs": timed([{"N": 1, "C": 1}, {"N": 2, "C": 2}], 8, 7), "depth": 5, "alphabet": CORE7}))
@@ -364,7 +443,7 @@ def part_trees(ctx, execf, impl="java"):
         jobs.append(("frac6", {"configs": timed([{"N": 2, "C": 1}], 8, 5), "depth": 6, "alphabet": FRAC}))
         jobs.append(("dev4", {"configs": [{"N": 1, "C": 1}, {"N": 2, "C": 2}, {"N": 3, "C": 1}], "depth": 4, "alphabet": DEVF}))
         jobs.append(("dev5", {"configs": [{"N": 2, "C": 1}], "depth": 5, "alphabet": DEVF}))
-    else:
+    elif impl == "java":
         for c in CONFIGS:
             jobs.append(("core7-n%dc%d" % (c["N"], c["C"]), {"configs": [c], "depth": 7, "alphabet": CORE}))
         jobs.append(("noread6-a", {"configs": timed(CONFIGS[:5], 8, 7), "depth": 6, "alphabet": CORE7}))
@@ -375,6 +454,28 @@ def part_trees(ctx, execf, impl="java"):
         jobs.append(("frac6-ms", {"configs": timed([{"N": 1, "C": 3}, {"N": 3, "C": 1}], 1000, 37), "depth": 6,
                      "alphabet": alphabet([999, 1, 1000], "proxy/x-lunar-error/2")[:-1]}))
         jobs.append(("dev6", {"configs": small + [{"N": 3, "C": 1}], "depth": 6, "alphabet": DEVF}))
+    elif not T:
+        jobs.append(("core5", {"configs": CONFIGS, "depth": 5, "alphabet": T_CORE}))
+        jobs.append(("noread5", {"configs": timed([{"N": 1, "C": 1}, {"N": 2, "C": 2}], 8, 7), "depth": 5, "alphabet": T_CORE7}))
+        jobs.append(("frac6", {"configs": timed([{"N": 2, "C": 1}], 8, 5), "depth": 6, "alphabet": T_FRAC}))
+        jobs.append(("dev4", {"configs": [{"N": 1, "C": 1}, {"N": 2, "C": 2}, {"N": 3, "C": 1}], "depth": 4, "alphabet": T_DEVF}))
+        jobs.append(("dev5", {"configs": [{"N": 2, "C": 1}], "depth": 5, "alphabet": T_DEVF}))
+    else:
+        for c in CONFIGS:
+            jobs.append(("core7-n%dc%d" % (c["N"], c["C"]), {"configs": [c], "depth": 7, "alphabet": T_CORE}))
+        jobs.append(("noread6-a", {"configs": timed(CONFIGS[:5], 8, 7), "depth": 6, "alphabet": T_CORE7}))
+        jobs.append(("noread6-b", {"configs": timed(CONFIGS[5:], 8, 7), "depth": 6, "alphabet": T_CORE7}))
+        jobs.append(("frac7", {"configs": timed(small, 8, 5), "depth": 7, "alphabet": T_FRAC}))
+        jobs.append(("frac6-ms", {"configs": timed([{"N": 1, "C": 3}, {"N": 3, "C": 1}], 1000, 37), "depth": 6,
+                     "alphabet": [{"ev": "ask"}, {"ev": "adv", "d": 999}, {"ev": "adv", "d": 1}, {"ev": "adv", "d": 1000},
+                                  {"ev": "call", "read": True, "out": "ok", "kind": ""}, {"ev": "call", "read": True, "out": "gwerr", "kind": "conn"}]}))
+        jobs.append(("dev5", {"configs": small + [{"N": 3, "C": 1}, {"N": 3, "C": 2}], "depth": 5, "alphabet": T_DEVF}))
+    return jobs
+
+
+def part_trees(ctx, execf, impl="java"):
+    T = ctx.thorough
+    jobs = tree_jobs(impl, T)
 
     def one(job):
         tag, spec = job
@@ -408,7 +509,7 @@ def part_trees(ctx, execf, impl="java"):
     ctx.cov["exhaustive"] = True
 
 
-def rand_script(rng, thorough, units=(1, 8, 8, 1000)):
+def rand_script(rng, thorough, impl="java", units=(1, 8, 8, 1000)):
     cfg = rng.choice([{"default": True}] + [{"N": rng.choice([1, 2, 3, 4, 5, 7]), "C": rng.choice([1, 2, 3, 5, 10, 30])} for _ in range(4)])
     n, c = (5, 10) if cfg.get("default") else (cfg["N"], cfg["C"])
     unit = rng.choice(units)
@@ -421,7 +522,9 @@ def rand_script(rng, thorough, units=(1, 8, 8, 1000)):
     noread = rng.choice([0.9, 0.6, 0.6, 0.3])
     pask = rng.choice([0.12, 0.12, 0.03])
     lates = 0
-    devs = rng.random() < 0.25           # a quarter of the histories contain application exceptions the injected code catches
+    devs = rng.random() < 0.25           # a quarter of the histories contain what only the pinned deviations accept
+    gw_kinds = GW_KINDS if impl == "java" or devs else ["conn", "timeout", "unknownhost"]
+    ok_kinds = OK_KINDS if impl == "java" else ["", "seq"]
     for _ in range(L):
         if rng.random() < 0.15:
             mood = rng.choice(["fail", "fail", "ok", "mixed", "wait"])
@@ -441,10 +544,12 @@ def rand_script(rng, thorough, units=(1, 8, 8, 1000)):
             else:
                 out = rng.choice(["ok", "gwerr", "gwerr", "appexc", "skip"])
             e = {"ev": "call", "read": rng.random() < noread, "out": out, "kind": ""}
+            if out == "appexc" and impl == "ts" and not devs:
+                out = e["out"] = "gwerr"         # the fetch hook has no application exception it lets through
             if out == "gwerr":
-                e["kind"] = rng.choice(GW_KINDS)
+                e["kind"] = rng.choice(gw_kinds)
             if out == "ok":
-                e["kind"] = rng.choice(OK_KINDS)
+                e["kind"] = rng.choice(ok_kinds)
             if out == "appexc":
                 e["kind"] = rng.choice(APP_DEV if devs else APP_OK)
             if out == "skip":
@@ -462,8 +567,9 @@ def part_walks(ctx, execf, impl="java"):
     T = ctx.thorough
     sd = workdir(ctx, "gen-" + impl)
     n = 25 if not T else 200
-    g = ctx.tlc(sd, "GenX04FS", "GenX04FS.cfg", workers=1, simulate="num=%d" % n, depth=45, extra=["-seed", str(ctx.seed)], timeout=900,
-                label="behaviour generation (simulation of FailSafeJavaI)")
+    gen = "GenX04FS" if impl == "java" else "GenX04FSTs"
+    g = ctx.tlc(sd, gen, gen + ".cfg", workers=1, simulate="num=%d" % n, depth=45, extra=["-seed", str(ctx.seed)], timeout=900,
+                label="behaviour generation (simulation of the %s fail-safe model)" % impl)
     walks, seenw = [], set()
     for w in tlc_vh_lines(g.out):           # every walk is printed once per successor of its last state
         kw = json.dumps(w, sort_keys=True)
@@ -499,7 +605,7 @@ def part_walks(ctx, execf, impl="java"):
         i += len(w) - 1
     if drift:
         ctx.cov["model_drift"] = True
-        ctx.notes.append("MODEL-DRIFT (%s): %d of %d generated behaviours differ from FailSafeJavaI's prediction, first: %s" % (
+        ctx.notes.append("MODEL-DRIFT (%s): %d of %d generated behaviours differ from the prediction of the implementation-shaped model, first: %s" % (
             impl, drift, len(walks), json.dumps(first)))
     ctx.log("%s: replayed %d TLC walks (%d events), %d differ from the model's prediction" % (impl, len(walks), s1["executions"], drift))
     ctx.sample({"kind": "tlc-walk", "impl": impl, "config": scripts[0]["config"], "events": [ev_brief(e) for e in walks[0][1:10]]})
@@ -509,7 +615,7 @@ def part_walks(ctx, execf, impl="java"):
         ctx.cov["traces_validated_against_impl"] += len(walks)
 
     nr = 200 if not T else 3000
-    rs = [rand_script(ctx.rng, T) for _ in range(nr)]
+    rs = [rand_script(ctx.rng, T, impl) for _ in range(nr)]
     json.dump(rs, open(os.path.join(d, "rand.json"), "w"))
     s2 = execf(ctx, ["scripts", os.path.join(d, "rand.json"), os.path.join(d, "rand.ndjson")])
     rej, obs, _, lines = judge_tree(ctx, impl, execf, os.path.join(d, "rand.ndjson"), impl + "-rand", workers=2)
@@ -629,54 +735,62 @@ def probe(ctx, hosts, hf):
     return len(hosts)
 
 
-def part_filter_java(ctx, space):
+def part_filter(ctx, space, impl, node=None):
     T = ctx.thorough
     lists = space["lists"]
     cfgs = [{"allow": a, "block": b} for a in lists for b in lists]
     hosts = list(space["hosts"])
     rnd = rnd_hosts(ctx, 6 if not T else 50)
-    hf = hosts_file(ctx, hosts + rnd, "hosts-filter")
-    execf = jexec(hf)
-    nprobed = probe(ctx, hosts + rnd, hf)
-    ctx.log("java: %d destinations of the host table agree with the platform resolver (InetAddress, -Djdk.net.hosts.file)" % nprobed)
+    hf = None
+    if impl == "java":
+        hf = hosts_file(ctx, hosts + rnd, "hosts-filter")
+        execf = jexec(hf)
+        nprobed = probe(ctx, hosts + rnd, hf)
+        ctx.log("java: %d destinations of the host table agree with the platform resolver (InetAddress, -Djdk.net.hosts.file)" % nprobed)
+    else:
+        execf = texec(node)          # the TypeScript filter never resolves a name: the table is the truth the statement is judged against
+        hosts = [h for h in hosts if h["h"] != "127.1"]      # URL.host canonicalises the inet_aton spelling to 127.0.0.1 before the filter sees it
     single = [c for c in cfgs if len(c["allow"]) + len(c["block"]) <= 1]
     rest = [c for c in cfgs if len(c["allow"]) + len(c["block"]) > 1]
     if not T:
-        runs = [("main", single + ctx.rng.sample(rest, 60), hosts + rnd, False)]
+        runs = [("main", single + ctx.rng.sample(rest, 60 if impl == "java" else 40), hosts + rnd, False)]
         wired_cfgs = single[:8] + ctx.rng.sample(rest, 12)
     else:
-        picked = single + ctx.rng.sample(rest, 1400)
+        picked = single + ctx.rng.sample(rest, 1400 if impl == "java" else 700)
         per = 300
         runs = [("main%d" % k, picked[i:i + per], hosts, False) for k, i in enumerate(range(0, len(picked), per))]
         runs.append(("rand", ctx.rng.sample(rest, 300), rnd, False))
         wired_cfgs = single + ctx.rng.sample(rest, 120)
-    # the same decisions as an application request sees them (injected code + filter + a fresh breaker): destinations a URL can carry
-    urlable = [h for h in hosts + rnd if h["kind"] in ("name", "ip4", "ip6") and " " not in h["h"] and h["h"] not in ("::",)]
+    # the same decisions as an application request sees them (hook / injected code + filter + a fresh breaker): destinations a URL can carry
+    urlable = [h for h in hosts + rnd if h["kind"] in ("name", "ip4", "ip6") and " " not in h["h"] and h["h"] not in ("::", "a..b")]
     runs.append(("wired", wired_cfgs, urlable, True))
+    model = "TrafficFilterJavaI" if impl == "java" else "TrafficFilterTsI"
 
     def exec_one(r):
         tag, cf, hs, wired = r
-        s, tp = run_filter(ctx, execf, {"hosts": hs, "headers": space["headers"], "configs": cf, "rounds": 1 if wired else 2, "wired": wired}, "java-" + tag)
-        return s, judge_filter(ctx, tp, "java-" + tag), tp
+        s, tp = run_filter(ctx, execf, {"hosts": hs, "headers": space["headers"], "configs": cf, "rounds": 1 if wired else 2, "wired": wired},
+                           "%s-%s" % (impl, tag))
+        return s, judge_filter(ctx, tp, "%s-%s" % (impl, tag)), tp
     results = parallel(exec_one, runs, n=3)
     first_tp = None
     for (tag, cf, hs, wired), (s, j, tp) in zip(runs, results):
         first_tp = first_tp or tp
-        ctx.log("java filter %s: %d decisions of the real TrafficFilter%s judged by TrafficFilterV (%d with a routing prohibition, %d with a routing "
+        ctx.log("%s filter %s: %d decisions of the real TrafficFilter%s judged by TrafficFilterV (%d with a routing prohibition, %d with a routing "
                 "obligation): %d observations, %d not permitted, %d differ from the transcription" % (
-                    tag, j["total"], " through the injected code" if wired else "", j["must_not"], j["must"], j["nobs"], len(j["bad"]), j["ndrift"]))
+                    impl, tag, j["total"], " as an application request sees them" if wired else "", j["must_not"], j["must"], j["nobs"],
+                    len(j["bad"]), j["ndrift"]))
         ctx.cov["evaluations"] += j["total"]
         ctx.cov["filter_cases"] = ctx.cov.get("filter_cases", 0) + j["total"]
         lines = None
         if j["ndrift"]:
             lines = read_ndjson(tp)
             ctx.cov["model_drift"] = True
-            ctx.notes.append("MODEL-DRIFT (java filter %s): %d decisions differ from TrafficFilterJavaI, first: %s" % (
-                tag, j["ndrift"], json.dumps(case_brief(lines[j["first_drift"] - 1]))))
+            ctx.notes.append("MODEL-DRIFT (%s filter %s): %d decisions differ from %s, first: %s" % (
+                impl, tag, j["ndrift"], model, json.dumps(case_brief(lines[j["first_drift"] - 1]))))
         for dname, (n, first) in j["obs"].items():
             if n:
                 lines = lines or read_ndjson(tp)
-                slot = ctx.x04_obs.setdefault(("java", "filter", dname), {"count": 0, "example": None})
+                slot = ctx.x04_obs.setdefault((impl, "filter", dname), {"count": 0, "example": None})
                 slot["count"] += n
                 slot["example"] = slot["example"] or case_brief(lines[first - 1])
         if j["bad"]:
@@ -691,38 +805,39 @@ def part_filter_java(ctx, space):
                 seen[key] = 1
                 one = {"hosts": [h for h in hs if h["h"] == c["host"]][:1], "headers": [c["header"]],
                        "configs": [{"allow": c["allow"], "block": c["block"]}], "rounds": 1, "wired": wired}
-                s2, tp2 = run_filter(ctx, execf, one, "java-repro")
-                j2 = judge_filter(ctx, tp2, "java-repro")
+                s2, tp2 = run_filter(ctx, execf, one, impl + "-repro")
+                j2 = judge_filter(ctx, tp2, impl + "-repro")
                 if not j2["bad"]:
                     raise Broken("filter rejection not reproduced: %s" % json.dumps(w))
-                ctx.violation(w, {"kind": "filter", "impl": "java", "case": one, "hosts_table": hosts + rnd, "recorded": case_brief(c)})
+                ctx.violation(w, {"kind": "filter", "impl": impl, "case": one, "hosts_table": hosts + rnd, "recorded": case_brief(c)})
         else:
             ctx.cov["traces_validated_against_impl"] += j["total"]
             ctx.cov["distinct_nontrivial"] += j["must_not"] + j["must"]
-    # cold runs: a fresh JVM per configuration with the lists in its REAL environment (no patching) must answer the same
-    cold_cfgs = [c for c in single if c["allow"] or c["block"]][:3] + ctx.rng.sample(rest, 3 if not T else 12)
-    hs = hosts[:12] + hosts[24:30]
+    if impl == "java":
+        # cold runs: a fresh JVM per configuration with the lists in its REAL environment (no patching) must answer the same
+        cold_cfgs = [c for c in single if c["allow"] or c["block"]][:3] + ctx.rng.sample(rest, 3 if not T else 12)
+        hs = hosts[:12] + hosts[24:30]
 
-    def cold(c):
-        a, b = ",".join(x["raw"] for x in c["allow"]), ",".join(x["raw"] for x in c["block"])
-        spec = {"hosts": hs, "headers": space["headers"], "configs": [c], "rounds": 1}
-        tagc = "java-cold-%d" % cold_cfgs.index(c)
-        _, tp_hot = run_filter(ctx, execf, spec, tagc + "h")
-        _, tp_cold = run_filter(ctx, execf, dict(spec, cold=True), tagc + "c",
-                                env={"LUNAR_ALLOW_LIST": a if a else None, "LUNAR_BLOCK_LIST": b if b else None})
-        hot, cld = read_ndjson(tp_hot)[1:], read_ndjson(tp_cold)[1:]
-        diff = [(case_brief(x), case_brief(y)) for x, y in zip(hot, cld) if (x["res"], x["exc"]) != (y["res"], y["exc"])]
-        return len(hot), diff
-    ncold = 0
-    for n, diff in parallel(cold, cold_cfgs, n=4):
-        ncold += n
-        # the HashSet iteration order (and with it whether the constructor raises) may differ between JVMs only for 'raise' cases
-        diff = [d for d in diff if "raise" not in (d[0]["res"], d[1]["res"])]
-        if diff:
-            raise Broken("filter built from the patched environment and from the real environment of a fresh JVM disagree: %s" % diff[:2])
-    ctx.log("java filter: %d decisions repeated in fresh JVMs with the lists in the real process environment: same answers" % ncold)
-    ctx.sample({"kind": "filter-decision", "impl": "java", "case": {"allow": [x["raw"] for x in runs[0][1][-1]["allow"]],
-                                                                     "block": [x["raw"] for x in runs[0][1][-1]["block"]], "host": hosts[1]["h"]}})
+        def cold(c):
+            a, b = ",".join(x["raw"] for x in c["allow"]), ",".join(x["raw"] for x in c["block"])
+            spec = {"hosts": hs, "headers": space["headers"], "configs": [c], "rounds": 1}
+            tagc = "java-cold-%d" % cold_cfgs.index(c)
+            _, tp_hot = run_filter(ctx, execf, spec, tagc + "h")
+            _, tp_cold = run_filter(ctx, execf, dict(spec, cold=True), tagc + "c",
+                                    env={"LUNAR_ALLOW_LIST": a if a else None, "LUNAR_BLOCK_LIST": b if b else None})
+            hot, cld = read_ndjson(tp_hot)[1:], read_ndjson(tp_cold)[1:]
+            diff = [(case_brief(x), case_brief(y)) for x, y in zip(hot, cld) if (x["res"], x["exc"]) != (y["res"], y["exc"])]
+            return len(hot), diff
+        ncold = 0
+        for n, diff in parallel(cold, cold_cfgs, n=4):
+            ncold += n
+            # the HashSet iteration order (and with it whether the constructor raises) may differ between JVMs only for 'raise' cases
+            diff = [d for d in diff if "raise" not in (d[0]["res"], d[1]["res"])]
+            if diff:
+                raise Broken("filter built from the patched environment and from the real environment of a fresh JVM disagree: %s" % diff[:2])
+        ctx.log("java filter: %d decisions repeated in fresh JVMs with the lists in the real process environment: same answers" % ncold)
+    ctx.sample({"kind": "filter-decision", "impl": impl, "case": {"allow": [x["raw"] for x in runs[0][1][-1]["allow"]],
+                                                                   "block": [x["raw"] for x in runs[0][1][-1]["block"]], "host": hosts[1]["h"]}})
     return first_tp, hf
 
 
@@ -792,11 +907,33 @@ DEV_TEXT = {
 }
 
 
+DEV_TEXT.update({
+    ("ts", DEV_LEG):
+        ("input: a fetch() through the hook whose gateway leg is rejected for a reason of the application (its AbortController aborted the request, or any "
+         "other rejection); expected by the docs ('recover from failures originated in Lunar Proxy'): the rejection reaches the caller, the failure streak "
+         "is untouched; observed: interceptor.ts fetchHandler catches every error, calls failSafe.onError and fetches the original URL directly"),
+    ("ts", DEV_TWICE):
+        ("input: LUNAR_ENTER_COOLDOWN_AFTER_ATTEMPTS=3, two fetch() calls answered by the gateway with header x-lunar-error; expected by the docs ('After "
+         "LUNAR_ENTER_COOLDOWN_AFTER_ATTEMPTS successive failed connection attempts'): still routed, the third failure starts the cool-down; observed: the "
+         "cool-down starts after the second one - interceptor.ts fetchHandler calls this._failSafe.onError twice for an error response (with the "
+         "default 5 the bypass starts after 3 error responses)"),
+    ("ts", "names-never-resolved"):
+        ("input: destination localhost / a name resolving to 10.x, 127.x, 172.16-31.x, 192.168.x / a name that does not resolve / 256.1.1.1, no lists; "
+         "expected by the docs ('Only outbound traffic will be redirected to Lunar Proxy'): not routed; observed: routed (trafficFilter.ts isExternalIP: "
+         "'If it's not an IP, we currently assume it's external'; 256.1.1.1 matches IP_PATTERN and no private range)"),
+    ("ts", "ipv6-literal-cut-at-colon"):
+        ("input: destination http://[::1]:8080/ (any IPv6 literal), with or without lists naming it; expected by the docs: loopback / private "
+         "addresses not routed, block-listed ones not routed; observed: isAllowed cuts URL.host '[::1]:8080' at the first ':' to strip the port, "
+         "judges the remainder '[' as an external name: routed, whatever the block list says; an allow-listed IPv6 destination is never routed"),
+    ("ts", "list-items-compared-as-typed"):
+        ("input: LUNAR_BLOCK_LIST=API.Pub.com or ' api.pub.com', destination api.pub.com; expected by the docs: sent directly to the provider; observed: "
+         "routed (Array.includes on the items as typed; every non-IPv4 item passes validateHost, nothing is trimmed)"),
+})
+
+
 def report_observations(ctx):
-    pinned = {"java": set(JAVA_FS_DEVS + JAVA_FILTER_DEVS)}
-    pinned.update(getattr(ctx, "x04_pinned_extra", {}))
-    texts = dict(DEV_TEXT)
-    texts.update(getattr(ctx, "x04_dev_text_extra", {}))
+    pinned = {k: set(v) for k, v in PINNED.items()}
+    texts = DEV_TEXT
     out = []
     for (impl, part, dname), slot in sorted(ctx.x04_obs.items()):
         if not slot["count"]:
@@ -849,9 +986,16 @@ def run(ctx):
     # the exhaustive part does not depend on the repository: it runs beside the recordings
     box = {}
 
+    node = find_node()
+    if node is None:
+        ctx.notes.append("TypeScript interceptor NOT covered: no TypeScript compiler is installed and none can be fetched; no node >= 22.7 "
+                         "(type stripping) found under /root/.nvm or on PATH (set X04_NODE)")
+    else:
+        ctx.x04_impls_run.append("ts")
+
     def model():
         try:
-            box["space"] = part_model(ctx)
+            box["space"] = part_model(ctx, node is not None)
         except BaseException as x:      # noqa: re-raised in the main thread
             box["err"] = x
     th = threading.Thread(target=model)
@@ -862,19 +1006,16 @@ def run(ctx):
         execf = jexec(hf)
         part_trees(ctx, execf)
         rand_trace = part_walks(ctx, execf)
+        if node is not None:
+            part_trees(ctx, texec(node), "ts")
+            part_walks(ctx, texec(node), "ts")
     finally:
         th.join()
     if "err" in box:
         raise box["err"]
-    filter_trace, _ = part_filter_java(ctx, box["space"])
-    try:
-        import x04_ts
-    except ImportError:
-        x04_ts = None
-    if x04_ts is not None:
-        x04_ts.run_ts(ctx, sys.modules[__name__])
-    else:
-        ctx.notes.append("TypeScript interceptor: not covered in this run")
+    filter_trace, _ = part_filter(ctx, box["space"], "java")
+    if node is not None:
+        part_filter(ctx, box["space"], "ts", node)
     if T:
         part_selftest(ctx, rand_trace, filter_trace)
     report_observations(ctx)
@@ -885,29 +1026,31 @@ def replay(ctx, path):
     rp = obj["replay"]
     d = ctx.sub("replay")
     ctx.x04_obs = {}
-    if rp.get("impl", "java") != "java":
-        import x04_ts
-        return x04_ts.replay_ts(ctx, sys.modules[__name__], path, obj)
+    impl = rp.get("impl", "java")
+    if impl == "ts":
+        node = find_node()
+        if node is None:
+            raise Broken("no node >= 22.7 to replay a TypeScript case")
     if rp["kind"] == "failsafe":
         hf = hosts_file(ctx, [], "hosts-failsafe")
         json.dump([rp["script"]], open(os.path.join(d, "s.json"), "w"))
-        run_java(ctx, ["scripts", os.path.join(d, "s.json"), os.path.join(d, "t.ndjson")], hf)
+        (jexec(hf) if impl == "java" else texec(node))(ctx, ["scripts", os.path.join(d, "s.json"), os.path.join(d, "t.ndjson")])
         for n in read_ndjson(os.path.join(d, "t.ndjson"))[1:]:
             print(json.dumps({k: v for k, v in n.items() if k != "k"}))
         rej, obs, _, _ = validate_tree(ctx, os.path.join(d, "t.ndjson"), "replay", workers=1)
         if rej:
             print("VIOLATION property=X04 replay=%s" % path)
-            print("   observation at event %d is not permitted by FailSafeRelV (statement + the deviations pinned for java)" % (rej[0] - 2))
+            print("   observation at event %d is not permitted by FailSafeRelV (statement + the deviations pinned for %s)" % (rej[0] - 2, impl))
             return 1
     else:
         hf = hosts_file(ctx, rp["hosts_table"], "hosts-filter")
-        s, tp = run_filter(ctx, jexec(hf), rp["case"], "replay")
+        s, tp = run_filter(ctx, jexec(hf) if impl == "java" else texec(node), rp["case"], "replay")
         for n in read_ndjson(tp)[1:]:
             print(json.dumps(case_brief(n)))
         j = judge_filter(ctx, tp, "replay")
         if j["bad"]:
             print("VIOLATION property=X04 replay=%s" % path)
-            print("   decision %d is not permitted by TrafficFilterV (statement + the deviations pinned for java)" % (j["bad"][0] - 1))
+            print("   decision %d is not permitted by TrafficFilterV (statement + the deviations pinned for %s)" % (j["bad"][0] - 1, impl))
             return 1
     print("replay accepted by the specification")
     return 0
